@@ -173,18 +173,18 @@ def exactB (s : St) : Bool := s.maybe.isNone && (match s.prev with | .job _ => t
 
 /-- on exact states the rough bound dominates the value-to-go (holds on every generated point) -/
 def RubAdmissibleExactStmt : Prop :=
-  ∀ (s : St) (r : Int), validB T s = true → exactB s = true → rub? T s = some r → bestRem T s ≤ some r
+  ∀ (s : St) (r : Int), validB T s = true → exactB s = true → rubOld? T s = some r → bestRem T s ≤ some r
 
 /-- on every valid state the rough bound dominates the value-to-go of every exact state it stands for.  REFUTED pointwise on
     merged states (driver note `sop-rub`): the mandatory / optional selection of `fast_upper_bound` compares the largest
     mandatory edge with the FIRST optional edge -/
 def RubAdmissibleStmt : Prop :=
-  ∀ (s : St) (r : Int), validB T s = true → rub? T s = some r → bestRemConc T s ≤ some r
+  ∀ (s : St) (r : Int), validB T s = true → rubOld? T s = some r → bestRemConc T s ≤ some r
 
 /-- the stronger reading: the rough bound dominates the value-to-go of the relaxed DP itself.  REFUTED pointwise (the relaxed
     DP may leave mandatory jobs of a merged state out, `domain?_last`); harmless: no solution is lost -/
 def RubDominatesRelaxedDpStmt : Prop :=
-  ∀ (s : St) (r : Int), validB T s = true → rub? T s = some r → bestRem T s ≤ some r
+  ∀ (s : St) (r : Int), validB T s = true → rubOld? T s = some r → bestRem T s ≤ some r
 
 /-- `merge` + `relax` over-approximate every merged-away state (potential form).  REFUTED pointwise: open defect D12
     (driver note `sop-merge-can-schedule`) -/
@@ -249,7 +249,7 @@ def rubT : Tab := tabOf 7 rubRows
 def rubS : St := ⟨.job 4, ofList [6], some (ofList [1, 3, 5]), 3⟩
 
 theorem rub_inDomain : inDomain 7 rubRows = true := by decide +kernel
-theorem rub_values : validB rubT rubS = true ∧ rub? rubT rubS = some (-4) ∧ bestRemConc rubT rubS = some (-3) := by
+theorem rub_values : validB rubT rubS = true ∧ rubOld? rubT rubS = some (-4) ∧ bestRemConc rubT rubS = some (-3) := by
   decide +kernel
 
 /-- the rough bound of the model (= of the code, pointwise) is NOT admissible on this state: it answers `-4`, the exact state
@@ -274,8 +274,8 @@ theorem rubFinalFixed_eq_of_nil {ct nMust : Nat} (dist : Int) (toMaybe : List In
 
 /-- where the mandatory jobs fill the remaining positions (in particular on exact states) the corrected bound IS the code's -/
 theorem rubFixed?_eq_of_must_ge (s : St) (hv : card s.must ≥ nv T - s.depth) (hd : s.depth ≤ nv T) (hn : T.n ≠ 0) :
-    rubFixed? T s = rub? T s := by
-  unfold rubFixed? rub? rubWith?
+    rubFixed? T s = rubOld? T s := by
+  unfold rubFixed? rubOld? rubWith?
   have hnb : nbVars? T = some (T.n - 1) := by simp [nbVars?, hn]
   have hd' : ¬ s.depth > T.n - 1 := by unfold nv at hd; omega
   simp only [hnb, Option.bind_eq_bind, Option.bind_some, hd', if_false]
